@@ -247,7 +247,7 @@ func c11(c *an.Check) {
 
 func init() {
 	register(&Def{ID: "C11", Run: c11,
-		Explain:     "Decides: (SIBLING) the two key-type registries (constant keys of the map literals) and the per-value abstract evaluation of GenerateKeyPairWithReader support the same key types; (R1) UnmarshalPublicKey/PrivateKey succeed only past protobuf decode and a successful registry lookup for the message's own key type, calling the registered unmarshaller on the message's own data; (MIRROR) the marshal side encodes {KeyType: k.Type(), Data: k.Raw()}; UnmarshalEd25519PublicKey succeeds only for 32 bytes; UnmarshalEd25519PrivateKey only for 64 bytes or 96 bytes whose redundant public key compares equal, storing exactly 64 key bytes; (WHO) Ed25519PrivateKey.k is written only by the three length-safe constructors; PEM marshal/parse agree on the two block types and wrap the protobuf encodings; (PANIC) every top-level function of crypto and keypem has no undischarged panic site. (GATE) the textual parsers (confparse) return a key only from the PEM wrapper or base58+protobuf decoding and (nil,nil) only for empty input; (NILDEREF) over all key codec functions. Generated codec sanity for package crypto; key-type dispatch and Ed25519 private-key decode gates shared with C39/C12–C14; (OWNERSHIP) Ed25519PrivateKey.Raw returns a copy; the peer-id decode chain is in the totality scope; pem.Decode's block is dereferenced only when non-nil.",
+		Explain:     "Decides: (SIBLING) the two key-type registries (constant keys of the map literals) and the per-value abstract evaluation of GenerateKeyPairWithReader support the same key types; (R1) UnmarshalPublicKey/PrivateKey succeed only past protobuf decode and a successful registry lookup for the message's own key type, calling the registered unmarshaller on the message's own data; (MIRROR) the marshal side encodes {KeyType: k.Type(), Data: k.Raw()}; UnmarshalEd25519PublicKey succeeds only for 32 bytes; UnmarshalEd25519PrivateKey only for 64 bytes or 96 bytes whose redundant public key compares equal, storing exactly 64 key bytes; (WHO) Ed25519PrivateKey.k is written only by the three length-safe constructors; PEM marshal/parse agree on the two block types and wrap the protobuf encodings; (PANIC) every top-level function of crypto and keypem has no undischarged panic site. (GATE) the textual parsers (confparse) return a key only from the PEM wrapper or base58+protobuf decoding and (nil,nil) only for empty input; (NILDEREF) over all key codec functions. Generated codec sanity for package crypto; key-type dispatch and Ed25519 private-key decode gates shared with C39/C12–C14; (OWNERSHIP) Ed25519PrivateKey.Raw returns a copy; the peer-id decode chain is in the totality scope; pem.Decode's block is dereferenced only when non-nil. (OWNERSHIP) the key decoders unmarshal into a zero message (no preset field survives an encoding that omits it).",
 		NotCov:      "round-trip equality as a value statement (follows from the mirrors under trusted codecs); confparse wrappers are decided under C38.",
 		Assumptions: commonAssumptions})
 }
